@@ -120,6 +120,45 @@ def cxxio_pass(prop, tier, seed):
     return viols, obs, obs["cxx_cases"]
 
 
+def cxxlife_pass(prop, tier, seed):
+    """C15, C++ half: the destructor of reproc::process against the real library and free-running children (src/cxxlife.cpp)."""
+    import os
+    import shutil
+    from concurrent.futures import ThreadPoolExecutor
+    vchild = build.build_vchild()
+    binp = build.build_cxxio("asan", "cxxlife")
+    env = dict(os.environ)
+    env.update(core.SAN_ENV)
+    nw = 8
+    root = os.path.join(core.BUILD, "run", "cxxlife.%d" % os.getpid())
+    os.makedirs(root, exist_ok=True)
+
+    def work(w):
+        return core.run_timed([binp, vchild, os.path.join(root, "w%d" % w), str(w), str(nw), tier, str(seed)], env, 900 if tier == "quick" else 3600)
+    with ThreadPoolExecutor(nw) as ex:
+        outs = list(ex.map(work, range(nw)))
+    shutil.rmtree(root, ignore_errors=True)
+    names = ["cxx_dtor_cases", "cxx_dtor_violations", "cxx_destructors", "cxx_dtor_signals", "cxx_dtor_lower_bounds", "cxx_dtor_reaped",
+             "cxx_dtor_left_running", "cxx_dtor_slow", "cxx_dtor_moved", "cxx_dtor_no_signal", "cxx_dtor_unclear"]
+    obs = {n: 0 for n in names}
+    viols = []
+    for rc, out, err in outs:
+        if rc in (124, 3):
+            obs["harness_timeouts"] = obs.get("harness_timeouts", 0) + 1
+        elif rc not in (0, 1):
+            kind = "asan" if "AddressSanitizer" in err else "ubsan" if "runtime error" in err else "crash"
+            viols.append((prop, "%s/cxxlife/%s" % (prop, kind), "C++ destructor harness died rc=%d: %s" % (rc, err[-500:]), {"seed": seed, "module": "cxxlife"}, [err[-2000:]]))
+        for line in out.splitlines():
+            f = line.split("\t")
+            if f[0] == "V" and len(f) >= 4:
+                viols.append((prop, "%s/cxxlife/%s" % (prop, f[1]), "%s [%s]" % (f[3], f[2]), {"seed": seed, "module": "cxxlife", "case": f[2]}, [line[:400]]))
+            elif f[0] == "S":
+                for n, v in zip(names, [int(x) for x in f[1:]]):
+                    obs[n] += v
+    del obs["cxx_dtor_violations"]
+    return viols, obs, obs["cxx_dtor_cases"]
+
+
 WIN_HANDLE_CLASSES = {
     "C10": ("win-std-handles", "win-start-failed", "win-process-handle", "win-handle-not-made-inheritable",
             # src/win.c --redirect: redirect.windows.c (which object, which direction)
@@ -379,10 +418,16 @@ CHECKS = {
         exhaustive_thorough=False, extra=win_handles_pass),
     "C15": scen_check(
         [("eng_life", "asan"), ("eng_life", "asan-nd", {"tiers": ["thorough"]})], "exploration",
-        "destroy in the states {running x3, ended, reaped, not started, failed start, parent side of fork} with default "
+        "destroy in the states {running x3, ended, reaped, not started, failed start, parent side of fork, started again after a "
+        "failed start that had its own deadline and policy} with default "
         "and random stop policies, deadlines {none,60,expired} and every child behaviour; signals/time compared "
-        "with the stop model, ledger + kernel ground truth after destroy; non-trivial = a destroy was checked",
-        {"destroys": 2000, "expected_hangs": 10, "states": 6}, assumptions=KERNEL_TRUST),
+        "with the stop model, ledger + kernel ground truth after destroy; plus the C++ half (src/cxxlife.cpp, real clock): the destructor of "
+        "reproc::process objects started through reproc::options (three-step policies with different timeouts, default policy with/without "
+        "deadline, waits that all expire, moved-from and never-started objects) - time-stamped signals of the library compared with the policy "
+        "(kinds, order, lower bounds) and the child's state afterwards; non-trivial = a destroy was checked",
+        {"destroys": 2000, "expected_hangs": 10, "states": 6, "cxx_destructors": 200, "cxx_dtor_signals": 100, "cxx_dtor_reaped": 80, "cxx_dtor_lower_bounds": 200},
+        assumptions=KERNEL_TRUST + ["the C++ destructor pass runs in real time and judges signal kinds/order, lower bounds and the end state only; cases later than bound + 1.5 s are counted as slow and not judged"],
+        extra=cxxlife_pass),
     "C08": scen_check(
         [("eng_poll", "asan"), ("eng_poll", "asan-nd", {"tiers": ["thorough"]})], "exploration",
         "reproc_poll over 1-5 sources of kinds {no process, no deadline, deadline +30/+70/+110, expired} in every order "
